@@ -12,7 +12,7 @@ RULE = ('operation-sequence exploration on a fresh Automaton per sequence (a '
         '(declare 3 further variables, add 6 formulas, exist / forall / let '
         'on the newest result, to_expr, reorder reversed / sifting, collect '
         'garbage, copy to a second context and back, solve and synthesize a '
-        'small game in the same automaton, repeat the previous operation, declare again with identical and with conflicting hints - refused, or in force afterwards): '
+        'small game in the same automaton, repeat the previous operation, declare again with identical and with conflicting hints - refused, or in force afterwards; define operators and try to define them again): '
         'ALL sequences up to length 3 (2 with the iterative translator; thorough 4). (b) expression-cache '
         'alphabet (init[k] := string A / string B, overwrite with TRUE, '
         'delete, drop results, collect garbage, reorder, store a freshly '
@@ -34,7 +34,7 @@ FORMULAS = ["x = 1", "y < 0 /\\ b", "x + y >= 1", "b <=> (x > y)",
 DECLS = [dict(z=(0, 5)), dict(c='bool'), dict(w=(-3, -1))]
 GEN = (['D0', 'D1', 'D2'] + ['A%d' % i for i in range(6)] +
        ['QE', 'QA', 'LET', 'TOEXPR', 'RREV', 'RSIFT', 'GC', 'COPY', 'GAME',
-        'REPEAT', 'RC'])
+        'REPEAT', 'RC', 'OPDEF'])
 CACHE = ['SA', 'SB', 'TRUE', 'DEL', 'DROP', 'GC', 'RREV', 'NEW1', 'NEW2',
          'PRINT']
 CONFIGS = [('cudd', 'rec'), ('cudd', 'iter'), ('autoref', 'rec'),
@@ -263,6 +263,34 @@ def ev_redeclare(st):
     return None
 
 
+def ev_define(st):
+    """Registered operators: defined once; an attempt to define one again
+    (differently) is refused or at least changes nothing; the formula that
+    uses them means the same before and after."""
+    aut = st.aut
+    if not getattr(st, 'defined', False):
+        aut.define("pos == x > 0\nboth == pos /\\ b")
+        st.defined = True
+    u1 = aut.add_expr('both \\/ (y = 1)', with_ops=True)
+    names = ['b', 'x', 'y']
+    ref = st.ref_table('((x > 0) /\\ b) \\/ (y = 1)', names)
+    if ro.Reader(aut, names).table(u1) != ref:
+        raise AssertionError('formula over defined operators differs from '
+                             'its expansion')
+    for d in ('pos == x < 1', 'both == ~ b'):
+        try:
+            aut.define(d)
+        except ValueError:
+            pass
+    u2 = aut.add_expr('both \\/ (y = 1)', with_ops=True)
+    if u2 != u1:
+        raise AssertionError(
+            'the same formula over registered operators changed its '
+            'meaning after an attempt to define an operator again')
+    st.results.append(dict(u=u1, names=names, ref=ref, how='defined ops'))
+    return u1
+
+
 def run_event(st, e):
     st.n_events += 1
     if e[0] == 'D':
@@ -292,6 +320,8 @@ def run_event(st, e):
         return ev_game(st)
     if e == 'RC':
         return ev_redeclare(st)
+    if e == 'OPDEF':
+        return ev_define(st)
     raise ValueError(e)
 
 
